@@ -15,7 +15,7 @@ from ..core import Outcome
 from ..par import pmap
 from .. import tlc, fixdict
 
-XMLS = {"FIX44": "/repo/tests/FIX44.xml", "TT": "/repo/tests/TT-FIX44.xml"}
+XMLS = {"FIX44": __import__("harness").REPO + "/tests/FIX44.xml", "TT": __import__("harness").REPO + "/tests/TT-FIX44.xml"}
 GOOD = {"INT": "7", "SEQNUM": "3", "NUMINGROUP": "1", "LENGTH": "4", "DAYOFMONTH": "15", "FLOAT": "1.5", "QTY": "100", "PRICE": "12.25", "PRICEOFFSET": "-0.5",
         "AMT": "1000.50", "PERCENTAGE": "0.05", "CHAR": "A", "BOOLEAN": "Y", "STRING": "abc", "MULTIPLEVALUESTRING": "A B", "MULTIPLESTRINGVALUE": "A B",
         "CURRENCY": "USD", "COUNTRY": "US", "EXCHANGE": "XNYS", "UTCTIMESTAMP": "20240102-03:04:05", "UTCTIMEONLY": "03:04:05", "UTCDATEONLY": "20240102",
@@ -83,6 +83,14 @@ def at(tree, path):
     return t
 
 
+def representable(tree):
+    """a FIXContainer cannot hold the same tag twice: such trees are artefacts of the mutation operators, not messages"""
+    tags = [f["tag"] for f in tree]
+    if len(tags) != len(set(tags)):
+        return False
+    return all(representable(it) for f in tree if f["k"] == "g" for it in f["items"])
+
+
 def mutants(b, d, mt, tree, members):
     all_tags = set(d["fields"])
     foreign_pool = sorted(all_tags - {m["tag"] for m in members} - set(d["header"]) - set(d["trailer"]))
@@ -114,7 +122,7 @@ def mutants(b, d, mt, tree, members):
     if foreign_pool:
         ft = b.rng.choice(foreign_pool)
         t2 = copy.deepcopy(tree); t2.append({"k": "f", "tag": ft, "val": b.val(ft)}); out.append(("tag_of_other_message", t2))
-    return out
+    return [(n, t) for (n, t) in out if representable(t)]
 
 
 _S = {}
@@ -127,8 +135,8 @@ def _schemas(dname, nperm, seed):
     import sys
     import warnings
     warnings.simplefilter("ignore")
-    if "/repo" not in sys.path:
-        sys.path.insert(0, "/repo")
+    if __import__("harness").REPO not in sys.path:
+        sys.path.insert(0, __import__("harness").REPO)
     from asyncfix.protocol.schema import FIXSchema
     res = [FIXSchema(XMLS[dname])]
     rng = random.Random(seed)
@@ -155,9 +163,9 @@ def to_msg(mt, tree):
     def fill(c, fs):
         for f in fs:
             if f["k"] == "f":
-                c.set(f["tag"], f["val"], replace=True)
+                c.set(f["tag"], f["val"])
             else:
-                c.set_group(f["tag"], [fill(FIXContainer(), it) for it in f["items"]]) if f["tag"] not in c else None
+                c.set_group(f["tag"], [fill(FIXContainer(), it) for it in f["items"]])
         return c
     return fill(FIXMessage(mt), tree)
 
